@@ -15,9 +15,9 @@
 (***************************************************************************)
 EXTENDS Naturals, Integers, Sequences, FiniteSets, TLC, Json
 
-Tok == <<"0", "1", "2", "2^8-1", "2^8", "2^16", "2^32-1", "2^32", "2^63", "2^64-2", "2^64-1">>
-BitsOf == <<0, 1, 2, 8, 9, 17, 32, 33, 64, 64, 64>>
-T == 1..Len(Tok)
+Tok == <<"0", "1", "2", "2^8-1", "2^8", "2^16", "2^32-1", "2^32", "2^63", "2^64-2", "2^64-1", "r-5", "r-1">>     \* the last two are field elements just below the group order ("negative" numbers)
+BitsOf == <<0, 1, 2, 8, 9, 17, 32, 33, 64, 64, 64, 255, 255>>
+T == 1..11                               \* the u64 tokens (range and less-or-equal statements take u64 values)
 Leq(a, b) == a <= b                      \* tokens are indices into Tok
 Bits(t) == BitsOf[t]
 IsPow2(k) == k \in {1, 2, 4, 8, 16, 32, 64, 128, 256}
@@ -30,7 +30,7 @@ LeqTrue(n, a, b) == a <= b /\ Bits(a) <= n /\ (n = 64 \/ (b <= Len(Val) /\ Val[b
 IntervalTrue(v, a, b) == a <= v /\ v < b
 InSetTrue(v, S) == \E i \in 1..Len(S) : S[i] = v
 
-RangePerturb == {"none", "commitment", "n", "transcript", "generators", "key", "proof"}
+RangePerturb == {"none", "commitment", "n", "transcript", "generators", "key", "proof", "proof_surplus"}    \* proof_surplus: one more (L, R) pair in the inner-product argument than it has rounds
 RangeRows ==
   { [kind |-> "range", n |-> n, vs |-> <<v>>, perturb |-> p] : n \in {1, 2, 8, 16, 32, 64}, v \in T, p \in {"none"} }
   \cup { [kind |-> "range", n |-> n, vs |-> <<v>>, perturb |-> p] : n \in {8, 64}, v \in {1, 4}, p \in RangePerturb }
@@ -39,8 +39,9 @@ RangeRows ==
   \cup { [kind |-> "range", n |-> 8, vs |-> <<1, 2, 3>>, perturb |-> "none"], [kind |-> "range", n |-> 64, vs |-> <<9, 10, 1, 2>>, perturb |-> "commitment"],
          [kind |-> "range", n |-> 64, vs |-> <<9, 10, 1, 2>>, perturb |-> "none"] }
 LeqRows == { [kind |-> "leq", n |-> n, a |-> a, b |-> b, perturb |-> p] : n \in {8, 64}, a \in {1, 2, 4, 5, 9, 11}, b \in {1, 2, 4, 5, 10, 11}, p \in {"none"} }
-           \cup { [kind |-> "leq", n |-> 64, a |-> 2, b |-> 9, perturb |-> p] : p \in {"commitment", "swap", "transcript", "proof"} }
+           \cup { [kind |-> "leq", n |-> 64, a |-> 2, b |-> 9, perturb |-> p] : p \in {"commitment", "swap", "transcript", "proof", "proof_surplus"} }
 IntervalRows == { [kind |-> "interval", v |-> v, a |-> a, b |-> b, perturb |-> "none"] : v \in {1, 2, 4, 8, 11}, a \in {1, 2, 4, 9}, b \in {2, 4, 5, 11} }
+                \cup { [kind |-> "interval", v |-> v, a |-> a, b |-> b, perturb |-> "none"] : v \in {12, 13}, a \in {1, 2}, b \in {4, 11} }      \* "negative" values are above every u64 bound
                 \cup { [kind |-> "interval", v |-> 4, a |-> 2, b |-> 8, perturb |-> p] : p \in {"commitment", "bounds", "transcript", "proof"} }
 Sets == { <<3>>, <<3, 5>>, <<1, 3, 5>>, <<1, 3, 5, 7>>, <<1, 3, 5, 7, 9>>, <<2, 3, 4, 5, 6, 7, 8, 9>>, <<11, 1>> }
 SetRows == { [kind |-> k, v |-> v, set |-> S, perturb |-> "none"] : k \in {"in_set", "not_in_set"}, v \in {1, 3, 4, 9, 11}, S \in Sets }
